@@ -41,7 +41,14 @@ func gameWatchL(listeners bool) *Watch {
 				return false
 			}
 			// any store through the game object or into a hand state
-			return ss.Addr.PathHas("game", "gs") || ss.Addr.Strip().IsField("game", "isClosed") || ss.Addr.PathHas("", "gs") && ss.Addr.Root().Kind == "param"
+			// (any field of the hand object counts: a flag raised before the backend is asked and lowered only by the
+			// next state — an in-flight mark, a memo — stays raised when the backend fails)
+			for a := ss.Addr.Strip(); a != nil; a = a.Base() {
+				if a.Kind == "field" && a.Owner == "game" {
+					return true
+				}
+			}
+			return ss.Addr.PathHas("", "gs") && ss.Addr.Root().Kind == "param"
 		}
 		if _, ok := in.(*ssa.Send); ok {
 			return true
